@@ -25,20 +25,23 @@ TEXT = {
             "(minus the statement's own exclusions), from the field the decoder stores it in; literal key text and "
             "numeric enum encodings are read back to the same key/variant; values of the key/value, event and colour "
             "sections are written as stored (no rounding/cast/arithmetic, K7); spinner/hold end-time separator by kind "
-            "(K8); encoder redundancy tolerance not coarser than the decoder's (K9); records are lines (K10); section "
+            "(K8); encoder redundancy tolerance not coarser than the decoder's (K9); records are lines (K10); list "
+            "fields written whole (K11); conversions copy fields unmodified (DG-D6); section "
             "headers are recognised. Not "
             "decided: equality of decoded values (control-point merge, path serialisation, float text).",
             "encoder/decoder key-table agreement over typed HIR (format_args templates decoded) and MIR"),
     'C03': ("Partial (N): the value of a key/value line is the remainder after the first colon; the six key/value "
             "parsers split only through that one function; metadata lines are not comment-stripped (also not by a "
-            "delegating decoder); writer key<->field pairing and values written as stored as in C02; the decode-side "
+            "delegating decoder); writer key<->field pairing, values written as stored, lists written whole and "
+            "conversions copying fields unmodified as in C02; the decode-side "
             "numeric limits and funnel of C11. Not decided: that an arbitrary edited value "
             "prints in a form the parser accepts.",
             "callee/constant checks on MIR of the splitter and its callers + key-table agreement"),
     'C04': ("Framing clause only (S for framing): the version line is written first; the 8 section writers are "
             "called once each, unconditionally, in canonical order; each starts with its own header, which the "
             "decoder's header table maps to that section; no other bracketed header is written; literal keys are "
-            "accepted; a spinner's end time is followed by `,` and a hold's by `:` by kind alone (N: K8); every begun "
+            "accepted; values are written with plain `{}` (N: K7); a spinner's end time is followed by `,` and a hold's "
+            "by `:` by kind alone (N: K8); every begun "
             "record line is ended before the next record (N: K10). Not decided: that every record line is accepted "
             "by its parser (value-level; the known "
             "trailing-type-letter defect F3 is not visible to this technique).",
@@ -47,13 +50,15 @@ TEXT = {
             "table equals the format's and strips exactly one bracket pair; skip test dominates header test "
             "dominates parser call on the same line; a skipped line only leads to the next read; the section loop "
             "ends only at end of input/I-O error; parser results cannot influence control flow; no impl overrides "
-            "the driver; LF delimiter and trailing trim; skip rule and version-line decision tables (N: SC-C05); the "
+            "the driver; the parser is re-chosen from every header parse_section returns and dispatched on that header; "
+            "LF delimiter and trailing trim; skip rule and version-line decision tables (N: SC-C05); the "
             "line buffers are cleared before they are appended to (S: LB). Not decided: BOM/CRLF behaviour as "
             "values.",
             "dominance and reachability checks on the driver's MIR + match-table extraction from HIR"),
     'C06': ("Essentially whole (S): on every CFG path of each of the 8 primary section parsers that may end in Err, "
             "nothing reachable from the state was written, except scratch buffers proven kill-before-use (and never "
-            "read by the final conversion) or clean-on-exit; the 13 delegations are transparent wrappers; the driver "
+            "read by the final conversion) or clean-on-exit; the 13 delegations are transparent wrappers (one parse_* "
+            "call plus pure result plumbing, no state-capturing error closure); the driver "
             "discards the Err (SW).",
             "interprocedural may-write dataflow over the mono call graph + kill-before-use must-analysis"),
     'C07': ("Essentially whole (S): 99 section methods classified (8 primary / 13 delegation / 78 no-op); delegation "
@@ -74,7 +79,8 @@ TEXT = {
     'C11': ("Partial (N): numeric conversions in the six parsers go through the limit-checking parser (exceptions "
             "enumerated with reasons); the five flag keys are `== 1`; slider multiplier / tick rate clamps; break end "
             ">= start; limit constant; background precedence (background unconditional, sprite only while empty, video "
-            "only under a negated extension test, the 7 extensions); bookmark entries skipped not cut; value "
+            "only under a negated extension test, the 7 extensions); Mode = exact texts 0..3; Combo* keys by prefix; "
+            "bookmark entries skipped, not cut or reordered; value "
             "splitting (KV). 'Invalid values leave the field untouched' is C06 (EA). Not decided: how the extension is "
             "extracted, last-valid-occurrence-wins as behaviour.",
             "spec-constant backward slices and numeric-funnel callee checks over MIR/HIR"),
@@ -85,18 +91,21 @@ TEXT = {
             "Not decided: the precedence rules themselves.",
             "spec-constant slices, control-dependence and must-pass-through checks over MIR"),
     'C13': ("Structural (S for order/uniqueness by the insertion lemma): the four ControlPoint::add impls binary-"
-            "search their own list with total_cmp on time, insert at Err(i), replace at Ok(i); ControlPoints::add "
+            "search their own list with total_cmp on time, insert at Err(i), replace at Ok(i), nothing else mutates the "
+            "list; ControlPoints::add "
             "tests redundancy before inserting; each lookup searches its own list for the unmodified time parameter "
             "with its documented fallback. "
             "Not decided: that is_redundant compares the right values.",
             "sibling-agreement extraction over MIR/HIR against a small expected table"),
     'C14': ("Partial (N): flag constants and kind precedence circle>slider>spinner>hold; coordinate/length limits "
-            "and truncating casts; repeat cap and node count; node defaults; non-negative durations; circle/slider arms "
+            "and truncating casts; repeat cap and node count; node defaults; sample suffix from index >= 2 tested before "
+            "the cast; hit-sound low byte; non-negative durations; circle/slider arms "
             "agree on "
             "combo rules. Not decided: path-string segmentation, sample/bank mapping.",
             "spec-constant slices and sibling agreement over HIR/MIR"),
     'C15': ("Partial: stable sort by start_time/total_cmp precedes break processing precedes the velocity loop (S "
-            "for phase order); leniency and per-mode clamp constants, base scoring distance, defaults (N). Not "
+            "for phase order); leniency and per-mode clamp constants, multiplier clamp, base scoring distance, defaults; "
+            "every passed break forces a new combo (N). Not "
             "decided: velocity/duration formulas as numbers, shift invariance.",
             "dominance (phase order) and spec-constant checks over MIR/HIR"),
     'C18': ("Strong: kill-before-use (S) of CurveBuffers.path/lengths/vertices from every pub entry point taking the "
@@ -109,7 +118,8 @@ TEXT = {
             "compile_fail witnesses"),
     'C19': ("Partial (N): progress is clamped to [0,1] and multiplied by the last cumulative length; the raw "
             "progress parameter reaches nothing but that clamp; position_at composes progress_to_dist, idx_of_dist, "
-            "interpolate_vertices on (path, lengths); zero-length-segment guard, interpolation weight and lerp "
+            "interpolate_vertices on (path, lengths); numeric segment search; zero-length-segment guard, interpolation "
+            "weight and lerp "
             "formula; owned and borrowed accessor families resolve to the same free functions. Not decided: arc-length "
             "bound, vertex hits as values.",
             "spec-constant slices and sibling agreement over HIR/MIR"),
